@@ -107,7 +107,8 @@ func (env *SpecEnv) BoolParts(e ast.Expr) []Term {
 		if sf, ok := env.lookupSpec(id.Name); ok && sf.Body != nil && !sf.Opaque && len(x.Args) == len(sf.Params) {
 			if rt := env.lookupType(sf.Result); rt != nil && isBool(rt) {
 				ch := &SpecEnv{vc: env.vc, fn: env.fn, cf: env.cf, pkg: env.pkg, vars: map[string]Val{}, cur: env.cur, old: env.old,
-					oldVars: env.oldVars, allocOld: env.allocOld, where: env.where + " in spec " + sf.Name, depth: env.depth + 1}
+					oldVars: env.oldVars, allocOld: env.allocOld, where: env.where + " in spec " + sf.Name, depth: env.depth + 1,
+					guard: env.guard, loopHeads: env.loopHeads, loopEntries: env.loopEntries, locals: nil}
 				if ch.depth > 50 {
 					break
 				}
@@ -938,6 +939,23 @@ func (env *SpecEnv) quant(kind string, x *ast.CallExpr) Val {
 	body := ch.Bool(x.Args[3])
 	k := Term{bound, enc.Idx()}
 	rng := mkAnd(enc.idxLe(lo, k), enc.idxLt(k, hi))
+	if enc.Mode == ModeInt {
+		// Re-index by absolute position: if the body reads s[k] as
+		// (select .. (+ off k)), quantify over j = off + k instead, so that the
+		// trigger (select .. j) contains no arithmetic. Solvers normalise sums,
+		// and (+ off k) then fails to match the index terms of the loads.
+		body.S = strings.ReplaceAll(body.S, "(+ 0 "+bound+")", bound)
+		if x, ok := offsetOf(body.S, bound); ok {
+			j := Term{"j" + strings.TrimPrefix(bound, id.Name), SInt}
+			bs := strings.ReplaceAll(body.S, "(+ "+x+" "+bound+")", j.S)
+			back := "(- " + j.S + " " + x + ")"
+			bs = replaceToken(bs, bound, back)
+			body = Term{bs, SBool}
+			xt := Term{x, SInt}
+			rng = mkAnd(enc.idxLe(enc.add(xt, lo), j), enc.idxLt(j, enc.add(xt, hi)))
+			bound = j.S
+		}
+	}
 	var t Term
 	if kind == "forall" {
 		t = Term{fmt.Sprintf("(forall ((%s %s)) %s)", bound, enc.Idx(), mkImplies(rng, body).S), SBool}
@@ -1276,7 +1294,8 @@ func (env *SpecEnv) specCall(sf *SpecFunc, x *ast.CallExpr) Val {
 		return env.opaqueCall(sf, args, rt)
 	}
 	ch := &SpecEnv{vc: env.vc, fn: env.fn, cf: env.cf, pkg: env.pkg, vars: map[string]Val{}, cur: env.cur, old: env.old,
-		oldVars: env.oldVars, allocOld: env.allocOld, where: env.where + " in spec " + sf.Name, depth: env.depth}
+		oldVars: env.oldVars, allocOld: env.allocOld, where: env.where + " in spec " + sf.Name, depth: env.depth,
+		guard: env.guard}
 	for i, p := range sf.Params {
 		ch.vars[p.Name] = args[i]
 	}
@@ -1337,67 +1356,150 @@ func (env *SpecEnv) opaqueCall(sf *SpecFunc, args []Val, rt types.Type) Val {
 	}
 	rs := enc.scalarSort(rt)
 	info := vc.opaque[sf.Name]
+	if info != nil && info.building && info.pass == 1 {
+		// recursive application inside the body, first pass: the heap
+		// components read are not known yet; the pass only collects them
+		info.recursive = true
+		return env.widen(scalar(rt, Term{"rec?dummy", rs}))
+	}
 	if info == nil {
-		sym := &State{Locals: map[*ssa.Alloc]Val{}, Heap: map[string]Term{}, Alloc: Term{"alloc?", SInt}, Sym: &symHeap{terms: map[string]Term{}}}
-		ch := &SpecEnv{vc: vc, fn: env.fn, cf: env.cf, pkg: env.pkg, vars: map[string]Val{}, cur: sym, where: env.where + " in ospec " + sf.Name, depth: env.depth}
-		var binders []string
-		var appArgs []string
-		for i, p := range sf.Params {
-			pt := env.lookupType(p.Type)
-			if ls, isArr := enc.arrayLeafSorts(pt); isArr {
-				av := &AV{T: pt}
-				for j, srt := range ls {
-					av.L = append(av.L, Term{fmt.Sprintf("p?%d_%d", i, j), srt})
+		info = &opaqueInfo{name: "spec_" + sanitize(sf.Name), building: true, pass: 1}
+		vc.opaque[sf.Name] = info
+		var sym *State
+		var binders, appArgs []string
+		var bt Term
+		build := func() {
+			sym = &State{Locals: map[*ssa.Alloc]Val{}, Heap: map[string]Term{}, Alloc: Term{"alloc?", SInt}, Sym: &symHeap{terms: map[string]Term{}}}
+			if info.pass == 2 {
+				// keep the component order of the first pass
+				for i, k := range info.keys {
+					vc.heapGet(sym, k, info.sorts[i])
 				}
-				for _, t := range av.L {
+			}
+			binders, appArgs = nil, nil
+			ch := &SpecEnv{vc: vc, fn: env.fn, cf: env.cf, pkg: env.pkg, vars: map[string]Val{}, cur: sym, where: env.where + " in ospec " + sf.Name, depth: env.depth}
+			for i, p := range sf.Params {
+				pt := env.lookupType(p.Type)
+				if ls, isArr := enc.arrayLeafSorts(pt); isArr {
+					av := &AV{T: pt}
+					for j, srt := range ls {
+						av.L = append(av.L, Term{fmt.Sprintf("p?%d_%d", i, j), srt})
+					}
+					for _, t := range av.L {
+						binders = append(binders, fmt.Sprintf("(%s %s)", t.S, t.Sort))
+						appArgs = append(appArgs, t.S)
+					}
+					ch.vars[p.Name] = av
+					continue
+				}
+				fv := &FV{T: pt}
+				if isMath(pt) {
+					fv.L = []Term{{fmt.Sprintf("p?%d_0", i), enc.scalarSort(pt)}}
+				} else {
+					for j, l := range enc.Leaves(pt) {
+						fv.L = append(fv.L, Term{fmt.Sprintf("p?%d_%d", i, j), l.Sort})
+					}
+				}
+				for _, t := range fv.L {
 					binders = append(binders, fmt.Sprintf("(%s %s)", t.S, t.Sort))
 					appArgs = append(appArgs, t.S)
 				}
-				ch.vars[p.Name] = av
-				continue
+				ch.vars[p.Name] = fv
 			}
-			fv := &FV{T: pt}
-			if isMath(pt) {
-				fv.L = []Term{{fmt.Sprintf("p?%d_0", i), enc.scalarSort(pt)}}
-			} else {
-				for j, l := range enc.Leaves(pt) {
-					fv.L = append(fv.L, Term{fmt.Sprintf("p?%d_%d", i, j), l.Sort})
+			body := ch.tr(sf.Body)
+			body = ch.coerce(body, rt)
+			bf, ok := body.(*FV)
+			if !ok || len(bf.L) != 1 {
+				env.errf("ospec %s must have a scalar body", sf.Name)
+			}
+			if isMath(rt) && !isMath(bf.T) {
+				ch.math = true
+				bf = ch.widen(bf).(*FV)
+			}
+			bt = bf.L[0]
+			if bt.Sort != rs {
+				env.errf("ospec %s: body sort %s does not match result sort %s", sf.Name, bt.Sort, rs)
+			}
+		}
+		build()
+		info.keys = sym.Sym.keys
+		info.sorts = nil
+		for _, k := range info.keys {
+			info.sorts = append(info.sorts, sym.Sym.terms[k].Sort)
+		}
+		// footprint reduction: a memory component that the body reads only at
+		// the backing object of one slice parameter, (select h p.base), is
+		// passed as that object's element array instead of the whole
+		// component, so that writes to other objects leave the application
+		// syntactically unchanged
+		info.reduce = map[int]string{}
+		for j, k := range info.keys {
+			ht := sym.Sym.terms[k]
+			if x, ok := selectTemplate(bt.S, ht, "p?"); ok {
+				info.reduce[j] = x
+			}
+		}
+		if info.recursive {
+			n1 := len(info.keys)
+			info.pass = 2
+			build()
+			if len(sym.Sym.keys) != n1 {
+				env.errf("recursive ospec %s: heap footprint changed between passes", sf.Name)
+			}
+		}
+		info.building = false
+		var hb, ha, hs []string
+		for j, k := range info.keys {
+			t := sym.Sym.terms[k]
+			name, srt := t.S, t.Sort
+			if x, ok := info.reduce[j]; ok {
+				_, el := t.Sort.ArrParts()
+				name, srt = fmt.Sprintf("m?%d", j), el
+				bt.S = strings.ReplaceAll(bt.S, fmt.Sprintf("(select %s %s)", t.S, x), name)
+				if containsToken(bt.S, t.S) {
+					env.errf("ospec %s: footprint reduction failed for %s", sf.Name, k)
 				}
 			}
-			for _, t := range fv.L {
-				binders = append(binders, fmt.Sprintf("(%s %s)", t.S, t.Sort))
-				appArgs = append(appArgs, t.S)
+			if srt.IsArr() {
+				// array-valued heap arguments are passed boxed (as an Int handle):
+				// the solvers give up early on quantifiers over array-sorted variables
+				box, unbox := vc.boxFns(srt)
+				id := fmt.Sprintf("id?%d", j)
+				bt.S = replaceToken(bt.S, name, "("+unbox+" "+id+")")
+				bt.S = strings.ReplaceAll(bt.S, "("+box+" ("+unbox+" "+id+"))", id)
+				hb = append(hb, fmt.Sprintf("(%s Int)", id))
+				ha = append(ha, id)
+				hs = append(hs, "Int")
+				continue
 			}
-			ch.vars[p.Name] = fv
-		}
-		body := ch.tr(sf.Body)
-		body = ch.coerce(body, rt)
-		bf, ok := body.(*FV)
-		if !ok || len(bf.L) != 1 {
-			env.errf("ospec %s must have a scalar body", sf.Name)
-		}
-		if isMath(rt) && !isMath(bf.T) {
-			ch.math = true
-			bf = ch.widen(bf).(*FV)
-		}
-		bt := bf.L[0]
-		if bt.Sort != rs {
-			env.errf("ospec %s: body sort %s does not match result sort %s", sf.Name, bt.Sort, rs)
-		}
-		info = &opaqueInfo{name: "spec_" + sanitize(sf.Name), keys: sym.Sym.keys}
-		var hb, ha, hs []string
-		for _, k := range info.keys {
-			t := sym.Sym.terms[k]
-			info.sorts = append(info.sorts, t.Sort)
-			hb = append(hb, fmt.Sprintf("(%s %s)", t.S, t.Sort))
-			ha = append(ha, t.S)
-			hs = append(hs, string(t.Sort))
+			hb = append(hb, fmt.Sprintf("(%s %s)", name, srt))
+			ha = append(ha, name)
+			hs = append(hs, string(srt))
 		}
 		var ps []string
 		for _, a := range args {
 			for _, t := range valLeaves(a) {
 				ps = append(ps, string(t.Sort))
 			}
+		}
+		if info.recursive {
+			// fuel encoding (as in Dafny/Boogie): the definition unfolds an
+			// application carrying fuel S(ly) into one carrying ly; user-level
+			// applications carry fuel 2, so unfolding stops after two steps and
+			// the definitional axiom cannot trigger itself for ever
+			if !vc.subFuncs["fuel"] {
+				vc.subFuncs["fuel"] = true
+				vc.extraDecls = append(vc.extraDecls, "(declare-sort Fuel 0)", "(declare-fun fuelS (Fuel) Fuel)", "(declare-fun fuelZ () Fuel)")
+			}
+			vc.extraDecls = append(vc.extraDecls, fmt.Sprintf("(declare-fun %s (%s) %s)", info.name, strings.Join(append(append([]string{"Fuel"}, hs...), ps...), " "), rs))
+			all := append(append([]string{"(ly? Fuel)"}, hb...), binders...)
+			rest := strings.Join(append(ha, appArgs...), " ")
+			applS := "(" + info.name + " (fuelS ly?) " + rest + ")"
+			appl0 := "(" + info.name + " ly? " + rest + ")"
+			vc.extraDecls = append(vc.extraDecls, fmt.Sprintf("(assert (forall (%s) (! (= %s %s) :pattern (%s))))", strings.Join(all, " "), applS, bt.S, applS))
+			vc.extraDecls = append(vc.extraDecls, fmt.Sprintf("(assert (forall (%s) (! (= %s %s) :pattern (%s))))", strings.Join(all, " "), applS, appl0, applS))
+			vc.opaque[sf.Name] = info
+			goto built
 		}
 		vc.extraDecls = append(vc.extraDecls, fmt.Sprintf("(declare-fun %s (%s) %s)", info.name, strings.Join(append(hs, ps...), " "), rs))
 		all := append(hb, binders...)
@@ -1409,9 +1511,43 @@ func (env *SpecEnv) opaqueCall(sf *SpecFunc, args []Val, rt types.Type) Val {
 		}
 		vc.opaque[sf.Name] = info
 	}
+built:
 	var ts []Term
+	if info.recursive {
+		if info.building {
+			ts = append(ts, Term{"ly?", Sort("Fuel")})
+		} else {
+			ts = append(ts, Term{"(fuelS (fuelS fuelZ))", Sort("Fuel")})
+		}
+	}
 	for i, k := range info.keys {
-		ts = append(ts, vc.heapGet(env.cur, k, info.sorts[i]))
+		ht := vc.heapGet(env.cur, k, info.sorts[i])
+		if x, ok := info.reduce[i]; ok {
+			// instantiate the template with the actual argument leaves
+			inst := x
+			for pi, a := range args {
+				for li, l := range valLeaves(a) {
+					inst = replaceToken(inst, fmt.Sprintf("p?%d_%d", pi, li), l.S)
+				}
+			}
+			if strings.Contains(inst, "p?") && !info.building {
+				env.errf("ospec %s: cannot instantiate the footprint template %s", sf.Name, x)
+			}
+			ht = mkSelect(ht, Term{inst, SInt})
+		}
+		if ht.Sort.IsArr() {
+			box, unbox := vc.boxFns(ht.Sort)
+			bx := Term{"(" + box + " " + ht.S + ")", SInt}
+			if env.cur.Sym == nil && !strings.Contains(ht.S, "?") {
+				vc.sc.Assume(mkEq(Term{"(" + unbox + " " + bx.S + ")", ht.Sort}, ht), "handle of a heap argument")
+				if tp := vc.typedPred(k, ht.Sort); tp != "" {
+					// all memory holds well-typed values (the encoding's invariant)
+					vc.sc.Assume(Term{"(" + tp + " " + bx.S + ")", SBool}, "the heap argument holds well-typed values")
+				}
+			}
+			ht = bx
+		}
+		ts = append(ts, ht)
 	}
 	for _, a := range args {
 		ls := valLeaves(a)
@@ -1435,4 +1571,190 @@ func valLeaves(v Val) []Term {
 		return x.L
 	}
 	return nil
+}
+
+
+// containsToken: does the S-expression text mention the symbol tok as a whole token?
+func containsToken(text, tok string) bool {
+	i := 0
+	for {
+		j := strings.Index(text[i:], tok)
+		if j < 0 {
+			return false
+		}
+		j += i
+		end := j + len(tok)
+		okL := j == 0 || text[j-1] == ' ' || text[j-1] == '('
+		okR := end == len(text) || text[end] == ' ' || text[end] == ')'
+		if okL && okR {
+			return true
+		}
+		i = j + 1
+	}
+}
+
+
+// selectTemplate: if every occurrence of the heap component h in text is of
+// the form (select h X) for one and the same X, and X mentions nothing but
+// parameter leaves (names starting with prefix) and function symbols, X is
+// returned. The component can then be passed as (select h X), an array of one
+// dimension less.
+func selectTemplate(text string, h Term, prefix string) (string, bool) {
+	if !h.Sort.IsArr() {
+		return "", false
+	}
+	if _, el := h.Sort.ArrParts(); !el.IsArr() {
+		return "", false
+	}
+	head := "(select " + h.S + " "
+	i := strings.Index(text, head)
+	if i < 0 {
+		return "", false
+	}
+	j := i + len(head)
+	// parse one balanced S-expression or atom starting at j
+	end := j
+	if text[j] == '(' {
+		d := 0
+		for end = j; end < len(text); end++ {
+			if text[end] == '(' {
+				d++
+			} else if text[end] == ')' {
+				d--
+				if d == 0 {
+					end++
+					break
+				}
+			}
+		}
+	} else {
+		for end < len(text) && text[end] != ' ' && text[end] != ')' {
+			end++
+		}
+	}
+	x := text[j:end]
+	if end >= len(text) || text[end] != ')' {
+		return "", false
+	}
+	if containsToken(strings.ReplaceAll(text, head+x+")", ""), h.S) {
+		return "", false
+	}
+	// X may mention only parameter leaves and (sub-object / elemref) function symbols
+	for _, tok := range strings.FieldsFunc(x, func(r rune) bool { return r == '(' || r == ')' || r == ' ' }) {
+		if strings.HasPrefix(tok, prefix) || strings.HasPrefix(tok, "sub_") || tok == "elemref" {
+			continue
+		}
+		if _, err := strconv.Atoi(tok); err == nil {
+			continue
+		}
+		return "", false
+	}
+	if !strings.Contains(x, prefix) {
+		return "", false
+	}
+	return x, true
+}
+
+// replaceToken replaces whole-token occurrences of old in an S-expression text.
+func replaceToken(text, old, new string) string {
+	var sb strings.Builder
+	i := 0
+	for i < len(text) {
+		j := strings.Index(text[i:], old)
+		if j < 0 {
+			sb.WriteString(text[i:])
+			break
+		}
+		j += i
+		end := j + len(old)
+		okL := j == 0 || text[j-1] == ' ' || text[j-1] == '('
+		okR := end == len(text) || text[end] == ' ' || text[end] == ')'
+		sb.WriteString(text[i:j])
+		if okL && okR {
+			sb.WriteString(new)
+		} else {
+			sb.WriteString(old)
+		}
+		i = end
+	}
+	return sb.String()
+}
+
+
+// boxFns declares, once per array sort, an injection of Int handles into the
+// arrays of that sort (unbox) and its inverse on the handles (box). Opaque
+// spec functions and lemma closures quantify over handles instead of over
+// array-sorted variables. The extension is conservative: unbox may enumerate,
+// injectively, any countable set containing the finitely many array values
+// that occur, and box is its inverse there.
+func (vc *FuncVC) boxFns(srt Sort) (string, string) {
+	id := sanitize(strings.NewReplacer("(", "", ")", "", " ", "_").Replace(string(srt)))
+	box, unbox := "box_"+id, "unbox_"+id
+	if !vc.subFuncs[box] {
+		vc.subFuncs[box] = true
+		vc.extraDecls = append(vc.extraDecls,
+			fmt.Sprintf("(declare-fun %s (%s) Int)", box, srt),
+			fmt.Sprintf("(declare-fun %s (Int) %s)", unbox, srt),
+			fmt.Sprintf("(assert (forall ((i Int)) (! (= (%s (%s i)) i) :pattern ((%s i)))))", box, unbox, unbox))
+	}
+	return box, unbox
+}
+
+
+// typedPred names the predicate "the array behind this handle holds values in
+// the range of the component's Go type"; "" if there is nothing to say.
+func (vc *FuncVC) typedPred(key string, srt Sort) string {
+	_, unbox := vc.boxFns(srt)
+	probe := vc.arrayTyped(key, Term{"(" + unbox + " i?)", srt})
+	if probe.IsTrue() {
+		return ""
+	}
+	name := "typedh_" + sanitize(key) + "_" + sanitize(strings.NewReplacer("(", "", ")", "", " ", "_").Replace(string(srt)))
+	if !vc.subFuncs[name] {
+		vc.subFuncs[name] = true
+		vc.extraDecls = append(vc.extraDecls,
+			fmt.Sprintf("(declare-fun %s (Int) Bool)", name),
+			fmt.Sprintf("(assert (forall ((i? Int)) (! (=> (%s i?) %s) :pattern ((%s i?)))))", name, probe.S, name))
+	}
+	return name
+}
+
+
+// offsetOf finds X in the first occurrence of (+ X v) in text where X does not
+// mention v and is closed with respect to other bound variables of the clause
+// nested inside (those carry a '?' in their names and may be bound deeper).
+func offsetOf(text, v string) (string, bool) {
+	i := 0
+	for {
+		j := strings.Index(text[i:], "(+ ")
+		if j < 0 {
+			return "", false
+		}
+		j += i
+		st := j + 3
+		end := st
+		if text[st] == '(' {
+			d := 0
+			for end = st; end < len(text); end++ {
+				if text[end] == '(' {
+					d++
+				} else if text[end] == ')' {
+					d--
+					if d == 0 {
+						end++
+						break
+					}
+				}
+			}
+		} else {
+			for end < len(text) && text[end] != ' ' && text[end] != ')' {
+				end++
+			}
+		}
+		x := text[st:end]
+		if strings.HasPrefix(text[end:], " "+v+")") && !containsToken(x, v) && !strings.Contains(x, "?") {
+			return x, true
+		}
+		i = j + 1
+	}
 }
